@@ -27,6 +27,13 @@ def main():
   signal.alarm(2400 if a.tier == 'quick' else 6 * 3600)
   seed = int(os.environ.get('VERIF_SEED', '0') or 0)
   sys.argv = sys.argv[:1]   # openhtf parses argv at import
+  # Pool workers must not be forked from this (multi-threaded) process: a worker
+  # forked while another thread is inside subprocess.Popen inherits the write
+  # ends of TLC's pipes, and Popen / communicate() then wait for an EOF that only
+  # comes when that worker exits (seen as a rare hang with TLC blocked on a full
+  # stdout pipe).  The fork server is single-threaded and holds none of our fds.
+  import multiprocessing
+  multiprocessing.set_start_method('forkserver')
   try:
     mod = importlib.import_module('checks.%s' % a.pid.lower())
   except ImportError:
